@@ -87,6 +87,26 @@ impl StyleSheetOutput {
         self.utf16_len += str::encode_utf16(&self.s[output_start_pos..]).count() as u32;
     }
 
+    /// Append a piece of the source as it is (it is separated from its neighbours like an identifier).
+    pub(crate) fn append_source_slice(&mut self, s: &str, position: crate::error::Position) {
+        let ser_type = Token::Ident("a".into()).serialization_type();
+        if self.prev_ser_type.needs_separator_when_before(ser_type) {
+            self.s.push(' ');
+            self.utf16_len += 1;
+        }
+        self.prev_ser_type = ser_type;
+        self.source_map.add_raw(
+            0,
+            self.utf16_len,
+            position.line,
+            position.utf16_col,
+            Some(self.source_id),
+            None,
+        );
+        self.s += s;
+        self.utf16_len += str::encode_utf16(s).count() as u32;
+    }
+
     pub(crate) fn append_token_space_preserved(&mut self, token: StepToken, src: Option<Token>) {
         if let Token::WhiteSpace(_) = &*token {
             self.prev_ser_type = token.serialization_type();
